@@ -116,12 +116,19 @@ func (c *ptCase) applyPending() {
 	}
 }
 
+// settleBound is how long the harness waits for the real goroutines to park or return before it calls them
+// stuck.  Generous on purpose: the checks run on loaded machines, and a stuck goroutine stays stuck.
+const settleBound = 10 * time.Second
+
 func (c *ptCase) settle() {
-	deadline := time.Now().Add(2 * time.Second)
+	deadline := time.Now().Add(settleBound)
 	for {
+		// (the watcher counter is raised by Call itself, the goroutine it spawns may not be visible yet on a
+		// loaded machine: the system is only settled once every counted watcher is seen parked)
+		wcount, _, _ := timeout.VerifPool()
 		gs := allGoroutines()
 		c.mu.Lock()
-		stable := true
+		stable := wcount == len(watcherGoroutines(gs))
 		for _, id := range watcherGoroutines(gs) {
 			_, asleep := c.pendingSleep[id]
 			if id == c.heldGid && (asleep || c.heldAtLock) {
@@ -147,7 +154,7 @@ func (c *ptCase) settle() {
 			continue
 		}
 		if time.Now().After(deadline) {
-			c.ctx.R.Quiet("mon C13-no-stuck-watcher", "the dispatcher did not settle within 2s")
+			c.ctx.R.Quiet("mon C13-no-stuck-watcher", "the dispatcher did not settle within "+settleBound.String())
 			c.failed = true
 			return
 		}
@@ -427,8 +434,8 @@ func runPoolCase(ctx *Ctx, maxWorkers, idle int, script []string) {
 			close(gate)
 			select {
 			case <-cn.done:
-			case <-time.After(2 * time.Second):
-				c.ctx.R.Quiet("mon C13-no-stuck-watcher", "a concurrent Cancel() did not return within 2s")
+			case <-time.After(settleBound):
+				c.ctx.R.Quiet("mon C13-no-stuck-watcher", "a concurrent Cancel() did not return within "+settleBound.String())
 				c.failed = true
 			}
 			c.settle()
